@@ -1020,7 +1020,7 @@ package xpath
 // hkey(acc, q) appends the indices of the ancestors of q to acc (defined by the instance keyStep).
 //@ define sidx(q) = ite(kind(q) == 2 || isroot(q), 1, idx(q))
 //@ define nameval(p) = ite(kind(p) == 1, nav_prefix(p) + nav_local(p), nav_local(p) + "=" + nav_value(p))
-//@ define keyHead(p) = "" + itoa_(len(nameval(p))) + ":" + nameval(p)
+//@ define keyHead(p) = ite(kind(p) == 1, "" + itoa_(len(nameval(p))) + ":" + nameval(p), "" + itoa_(kind(p)) + "/" + itoa_(len(nameval(p))) + ":" + nameval(p))     // attribute, text and comment nodes carry their kind in front (repaired defect: a="a" and the text "a" of one element collided)
 //@ define nodeKey(p) = ite(kind(p) == 0, "", hkey(keyHead(p) + "-" + itoa_(sidx(p)), p))
 //@ instance keyStep(acc, q) = hkey(acc, q) == ite(isroot(q), acc, hkey(acc + "-" + itoa_(sidx(parent(q))), parent(q)))
 //@ instance hashkeyDef(p) = hashkey(p) == fnv64a("" + nodeKey(p))
